@@ -694,7 +694,7 @@ func c09Call2(c *Ctx) {
 	r := c.Res
 	n, nb := 1500, 800
 	if c.Thorough {
-		n, nb = 30000, 16000
+		n, nb = 12000, 6400
 	}
 	mismatch := func(key, what, broken string, in map[string]interface{}, impl, model string) {
 		r.violate(Violation{Kind: "correspondence", Key: key, What: what, Input: in, Impl: impl, Model: model, Broken: broken})
